@@ -12,7 +12,7 @@ SHAPES = {'V0': ('Circle', 'Square'), 'V1': ('Circle', 'Wire'), 'V2': ('Wire', '
 def grammar(v):
     sub = SHAPES[v]
     return '''
-Model: imports*=Import (defs+=Def | groups+=Group | refs+=Ref | nums+=NumItem | pairs+=Pair)*;
+Model: imports*=Import (defs+=Def | groups+=Group | refs+=Ref | nums+=NumItem | pairs+=Pair | hexes+=HexItem)*;
 Import: 'import' importURI=STRING;
 Def: Shape | %s Other;
 Shape: %s;
@@ -25,6 +25,7 @@ Ref: 'ref' name=ID ('shape' s=[Shape] | 'circle' c=[Circle] | 'list' l+=[Shape][
 NumItem: 'num' n=Num;
 Pair: 'pair' a=INT ('and' a=INT)?;
 Num: /-?\\d+/;
+HexItem: 'hex' h=/#[0-9a-f]+/;
 Comment: /\\/\\/.*$/;
 ''' % (''.join(c + ' | ' for c in CONCRETE if c not in sub), ' | '.join(sub))
 
@@ -38,6 +39,11 @@ CONFIGS = {
     'c5': dict(v='V1', textx_tools_support=True, ignore_case=True, importuri=True),
     'c6': dict(v='V2', processors=True, memoization=True),
     'c7': dict(v='V1', classes=True, auto_init_attributes=False),
+    # the grammar text of c0 / c1 compiled under other options: anything cached per grammar text, literal or regex shows here
+    'c8': dict(v='V0', ignore_case=True),
+    'c9': dict(v='V0', autokwd=True),
+    'c10': dict(v='V1', ignore_case=True, autokwd=True, skipws=False),
+    'c11': dict(v='V0', use_regexp_group=True, memoization=True),
 }
 
 
@@ -46,7 +52,8 @@ def build(cname):
     import textx.scoping.providers as sp
     c = CONFIGS[cname]
     kw = {}
-    for k in ('memoization', 'autokwd', 'global_repository', 'textx_tools_support', 'ignore_case', 'auto_init_attributes'):
+    for k in ('memoization', 'autokwd', 'global_repository', 'textx_tools_support', 'ignore_case', 'auto_init_attributes', 'skipws',
+              'use_regexp_group'):
         if k in c:
             kw[k] = c[k]
     if c.get('classes'):
